@@ -35,7 +35,8 @@ RULE = ("exhaustive grids, nothing sampled: (A) create_node on each of the 66 no
         "8 for n-ary, 5 for the others; thorough: all 14) and arity 4-5 over 4 sorts for n-ary operators; (B) every "
         "FormulaManager constructor (95, incl. derived ones) x every argument-sort tuple x integer-parameter corners (extract "
         "bounds on/over the width, rotate/extend/repeat/shift by 0,1,w-1,w,w+1,2w+1,negative, non-integers) and value corners "
-        "of the constant constructors; (H) random create_node histories against Impl/CreateNode; (T) random well-typed formulas "
+        "of the constant constructors; both grids also with the SAME node in two or all argument positions (same symbol, "
+        "constant, compound term of every sort); (H) random create_node histories against Impl/CreateNode; (T) random well-typed formulas "
         "through simplify/substitute/nnf/prenex/aig/cnf/ackermannize/parse(print). A case is non-trivial when the application "
         "is accepted by the implementation or by the sorting rules (not rejected by both), a transformation case when the "
         "result differs from the input; distinct = distinct (constructor, sorts, parameters) / (transformation, formula)")
@@ -559,17 +560,21 @@ def run_grid_a_op(job):
         return symcache[k]
     out = []
     pcache = {}
-    for ss, p in grid_a_cases(o, tier):
+    cases = [(ss, p, False) for ss, p in grid_a_cases(o, tier)]
+    # the same node in every argument position (hash-consing makes equal operands one object)
+    small, big = payload_corners(o)
+    cases += [((s_, s_), p, True) for s_ in U14 for p in small] + [((s_, s_, s_), p, True) for s_ in U14 for p in big]
+    for ss, p, same in cases:
         if p not in pcache:
             pcache[p] = real_payload(env, o, p)
-        args = tuple(real_sym(i, s) for i, s in enumerate(ss))
+        args = tuple(real_sym(0 if same else i, s) for i, s in enumerate(ss))
         res = outcome_of(lambda: mgr.create_node(nt, args, pcache[p]))
         if res[0] == "ok":
             try:
                 res = ("ok", from_pysmt(env.stc.get_type(res[1])))
             except Exception as e:          # noqa
                 res = ("err", "get_type:" + type(e).__name__)
-        raw = (o, p, tuple(arg_sym(i, s) for i, s in enumerate(ss)))
+        raw = (o, p, tuple(arg_sym(0 if same else i, s) for i, s in enumerate(ss)))
         out.append((ss, p, raw, res))
     return out
 
@@ -1582,7 +1587,7 @@ def judge_grid_a(ctx, judge, results):
         rk = rank(o, p, ss)
         replay = {"grid": "A", "op": o, "sorts": [sort_name(s) for s in ss], "payload": repr(p),
                   "impl": repr(res), "rules": repr(rk), "term": show_raw(raw)}
-        ctx.case(("A", o, sorts_key(ss), payload_key(p)) if (impl_ok or rk is not None) else None)
+        ctx.case(("A", show_raw(raw), payload_key(p)) if (impl_ok or rk is not None) else None)
         ctx.count("A_" + ("ok" if impl_ok else "err"))
         # ---- S: the implementation against the sorting rules
         hole = classify_node(o, p, ss)
